@@ -193,6 +193,9 @@ func c09Run(sc *Scenario, argv []string, callee []CalleeFault, env map[string]st
 	if completion != "" && when != "late" {
 		s2.World.Env["GO_FLAGS_COMPLETION"] = BStr(completion)
 	}
+	if completion != "" && sc.C09 != nil && sc.C09.Plan != nil {
+		s2.ReenterArgv = bstrs(sc.C09.Plan.argv())
+	}
 	s2.Ops = nil
 	if completion != "" && when == "late" {
 		s2.Ops = append(s2.Ops, Op{Kind: "setenv", Key: "GO_FLAGS_COMPLETION", Text: BStr(completion)})
@@ -480,8 +483,11 @@ func faultStillExpected(d *DeclSpec, p *Plan, f ArgFault, argv []string) bool {
 		return ok && onChain(oi) && !isBoolFlag(oi.O.Kind) && !oi.O.Optional
 	case "env-unconvertible":
 		oi, ok := ois[f.Opt]
-		if ok && oi.O.Base != 0 && f.EnvVal == "12x" {
+		if ok && oi.O.Base != 0 && strings.HasSuffix(f.EnvVal, "12x") {
 			return false // a number in a base beyond 33
+		}
+		if ok && isMapKind(oi.O.Kind) && !strings.Contains(f.EnvVal, ":") {
+			return false // the value part would be the empty text: a conversion boundary, not a fault
 		}
 		return ok && oi.O.Env != "" && envFullOf(d, oi) == f.EnvKey
 	case "delete-required-pos":
